@@ -369,3 +369,202 @@ Proof.
     apply flush_conns_all_closed; [intros; apply flush_all_conn_closed; assumption|intros; apply flush_all_conn_rel; assumption|apply H]. }
   split; [exact E|]. destruct H' as [Hu _]. rewrite E in Hu. exact Hu.
 Qed.
+
+(* ------------------------------------------------------------------ C11_once *)
+Definition sids (l : list tconn) : list Z := map tc_sid l.
+Definition bounded (ls : lstate) (n : Z) : Prop := forall s, In s (l_open ls) \/ In s (l_done ls) -> s <= n.
+Definition linv (st : tstate) (ls : lstate) : Prop :=
+  l_open ls = sids (ts_conns st) /\ NoDup (sids (ts_conns st)) /\ bounded ls (ts_nstreams st).
+
+Lemma sids_app : forall a b, sids (a ++ b) = sids a ++ sids b.
+Proof. intros. unfold sids. apply map_app. Qed.
+
+Lemma call_events_data : forall sid calls, Forall (is_data_of sid) (map (call_event sid) calls).
+Proof.
+  intros sid calls. induction calls as [|l calls IH]; cbn [map]; constructor; [|exact IH].
+  unfold call_event. destruct l; cbn; reflexivity.
+Qed.
+
+Definition after_res (ls : lstate) (r : tres) : lstate :=
+  if tr_closed r then mkL (zremove (tc_sid (tr_c r)) (l_open ls)) (tc_sid (tr_c r) :: l_done ls) else ls.
+
+Lemma res_events_run : forall r ls, In (tc_sid (tr_c r)) (l_open ls) ->
+  lrun ls (res_events r) = Some (after_res ls r).
+Proof.
+  intros r ls Hin. unfold res_events, after_res. rewrite lrun_app.
+  rewrite (lrun_data (tc_sid (tr_c r))); [|exact Hin|apply call_events_data].
+  destruct (tr_closed r); [|reflexivity]. cbn [lrun lstep].
+  apply zmem_in in Hin. rewrite Hin. reflexivity.
+Qed.
+
+Lemma NoDup_snoc : forall (l : list Z) x, NoDup l -> ~ In x l -> NoDup (l ++ [x]).
+Proof.
+  intros l x H Hn. apply (NoDup_Add (Add_app x l [])). rewrite app_nil_r. split; assumption.
+Qed.
+
+Lemma put_back_log : forall st pre c post ls r free fresh alloc,
+  ts_conns st = pre ++ c :: post -> linv st ls -> tc_sid (tr_c r) = tc_sid c ->
+  linv (put_back st pre post free fresh alloc (ts_nstreams st) r) (after_res ls r).
+Proof.
+  intros st pre c post ls r free fresh alloc El [Ho [Hn Hb]] Hs.
+  rewrite El in Ho, Hn. rewrite sids_app in Ho, Hn. cbn [sids map] in Ho, Hn. fold (sids post) in Ho, Hn.
+  unfold put_back, after_res, linv. destruct (tr_closed r); cbn [ts_conns ts_nstreams l_open l_done].
+  - rewrite Hs, Ho, sids_app. rewrite zremove_mid by exact Hn. split; [reflexivity|].
+    split; [eapply NoDup_remove_1; exact Hn|].
+    intros s [Hin|[Hin|Hin]].
+    + apply Hb. left. rewrite Ho. apply in_app_or in Hin. apply in_or_app. destruct Hin; [left|right; right]; assumption.
+    + subst s. apply Hb. left. rewrite Ho. apply in_or_app. right. left. reflexivity.
+    + apply Hb. right. exact Hin.
+  - rewrite sids_app. cbn [sids map]. fold (sids post). rewrite Hs. split; [exact Ho|]. split; [exact Hn|exact Hb].
+Qed.
+
+Lemma tassemble_log : forall v st ls k seq syn fin rst len ts, tinv st -> linv st ls ->
+  exists ls', lrun ls (to_ev (snd (tassemble v st k seq syn fin rst len ts))) = Some ls' /\
+              linv (fst (tassemble v st k seq syn fin rst len ts)) ls'.
+Proof.
+  intros v st ls k seq syn fin rst len ts [Hu HF] L. unfold tassemble.
+  destruct (negb syn && negb fin && negb rst && (len =? 0)); [exists ls; split; [reflexivity|exact L]|].
+  destruct (split_key k (ts_conns st)) as [[[pre c] post]|] eqn:Es.
+  - apply split_key_spec in Es. destruct Es as [El _].
+    assert (Hc : conn_ok c). { rewrite El in HF. apply Forall_app in HF. destruct HF as [_ HF]. inversion HF; assumption. }
+    destruct (assemble_locked v st c seq syn fin rst len ts) as [r|] eqn:Ea; cbn [fst snd to_ev].
+    + pose proof (assemble_locked_rel _ _ _ _ _ _ _ _ _ _ Hc Ea) as A. destruct A as [As _].
+      exists (after_res ls r). split.
+      * apply res_events_run. rewrite As. destruct L as [Ho _]. rewrite Ho, El, sids_app. apply in_or_app. right. left. reflexivity.
+      * apply put_back_log with (c := c); assumption.
+    + exists ls. split; [reflexivity|]. exact L.
+  - destruct (negb syn && (len =? 0)); [exists ls; split; [reflexivity|exact L]|].
+    destruct (take_free st) as [[[inh free1] fresh1] alloc1].
+    set (sid := ts_nstreams st + 1).
+    set (c := mkTC k sid 0 [] INVALID (if v_lastseen v then ts else inh)).
+    assert (Hc : conn_ok c) by (unfold conn_ok, qlen; reflexivity).
+    destruct (assemble_locked v st c seq syn fin rst len ts) as [r|] eqn:Ea; cbn [fst snd to_ev].
+    + pose proof (assemble_locked_rel _ _ _ _ _ _ _ _ _ _ Hc Ea) as A. destruct A as [As _]. cbn [tc_sid c] in As.
+      destruct L as [Ho [Hn Hb]].
+      assert (Hfresh : ~ In sid (l_open ls) /\ ~ In sid (l_done ls)).
+      { split; intros Hin; [specialize (Hb sid (or_introl Hin))|specialize (Hb sid (or_intror Hin))]; unfold sid in Hb; lia. }
+      destruct Hfresh as [Hf1 Hf2].
+      set (ls1 := mkL (l_open ls ++ [sid]) (l_done ls)).
+      exists (after_res ls1 r). split.
+      * cbn [lrun lstep]. apply zmem_false in Hf1. apply zmem_false in Hf2. rewrite Hf1, Hf2. cbn [orb].
+        fold ls1. apply res_events_run. rewrite As. cbn [ls1 l_open]. apply in_or_app. right. left. reflexivity.
+      * unfold put_back, after_res, linv. rewrite As.
+        assert (Hn1 : NoDup (l_open ls ++ [sid])) by (apply NoDup_snoc; [rewrite Ho; exact Hn|exact Hf1]).
+        destruct (tr_closed r); cbn [ts_conns ts_nstreams l_open l_done ls1].
+        -- rewrite app_nil_r. rewrite zremove_mid by exact Hn1. rewrite app_nil_r.
+           split; [exact Ho|]. split; [exact Hn|].
+           intros s [Hin|[Hin|Hin]]; [specialize (Hb s (or_introl Hin))| |specialize (Hb s (or_intror Hin))]; unfold sid in *; lia.
+        -- rewrite sids_app. cbn [sids map]. rewrite As. rewrite <- Ho. split; [reflexivity|]. split; [exact Hn1|].
+           intros s [Hin|Hin].
+           ++ apply in_app_or in Hin. destruct Hin as [Hin|[Hin|[]]]; [specialize (Hb s (or_introl Hin))|]; unfold sid in *; lia.
+           ++ specialize (Hb s (or_intror Hin)). unfold sid. lia.
+    + exists ls. split; [reflexivity|]. exact L.
+Qed.
+
+Lemma flush_conns_log : forall f, (forall c u, tc_sid (tr_c (fst (f c u))) = tc_sid c) ->
+  forall l used pre done, NoDup (pre ++ sids l) ->
+  exists done', lrun (mkL (pre ++ sids l) done) (fa_ev (flush_conns f l used)) =
+                  Some (mkL (pre ++ sids (fa_keep (flush_conns f l used))) done') /\
+                (forall s, In s done' -> In s done \/ In s (sids l)) /\
+                NoDup (pre ++ sids (fa_keep (flush_conns f l used))) /\
+                (forall s, In s (sids (fa_keep (flush_conns f l used))) -> In s (sids l)).
+Proof.
+  intros f Hf. induction l as [|c l IH]; intros used pre done Hn; cbn [flush_conns].
+  - exists done. cbn [fa_ev fa_keep sids map lrun]. split; [reflexivity|]. split; [intros s H; left; exact H|]. split; [exact Hn|intros s H; exact H].
+  - pose proof (Hf c used) as Hs. destruct (f c used) as [r fl]. cbn [fst] in Hs.
+    cbn [fa_ev fa_keep]. rewrite lrun_app. cbn [sids map]. fold (sids l).
+    rewrite res_events_run; [|cbn [l_open]; rewrite Hs; apply in_or_app; right; left; reflexivity].
+    unfold after_res. cbn [l_open l_done]. rewrite Hs.
+    destruct (tr_closed r).
+    + rewrite zremove_mid by exact Hn.
+      destruct (IH (tr_used r) pre (tc_sid c :: done) (NoDup_remove_1 _ _ _ Hn)) as [d' [I1 [I2 [I3 I4]]]].
+      exists d'. split; [exact I1|]. split; [|split; [exact I3|intros s Hin; right; apply I4; exact Hin]].
+      intros s Hin. destruct (I2 s Hin) as [[E|H]|H]; [right; left; exact E|left; exact H|right; right; exact H].
+    + assert (Hn' : NoDup ((pre ++ [tc_sid c]) ++ sids l)) by (rewrite <- app_assoc; exact Hn).
+      destruct (IH (tr_used r) (pre ++ [tc_sid c]) done Hn') as [d' [I1 [I2 [I3 I4]]]].
+      repeat rewrite <- app_assoc in I1. repeat rewrite <- app_assoc in I3. cbn [app] in I1, I3. cbn [sids map]. rewrite Hs. fold (sids (fa_keep (flush_conns f l (tr_used r)))).
+      exists d'. split; [exact I1|]. split; [|split; [exact I3|]].
+      * intros s Hin. destruct (I2 s Hin) as [H|H]; [left; exact H|right; right; exact H].
+      * intros s [E|Hin]; [left; exact E|right; apply I4; exact Hin].
+Qed.
+
+Lemma flush_log : forall f st ls a b, (forall c u, tc_sid (tr_c (fst (f c u))) = tc_sid c) -> linv st ls ->
+  let acc := flush_conns f (ts_conns st) (ts_used st) in
+  exists ls', lrun ls (fa_ev acc) = Some ls' /\
+    linv (mkTS (fa_keep acc) a (ts_fresh st) (ts_alloc st) (fa_used acc) (ts_maxPer st) (ts_maxTotal st) (ts_nstreams st) b) ls'.
+Proof.
+  intros f st ls a b Hf [Ho [Hn Hb]]. cbn zeta.
+  destruct (flush_conns_log f Hf (ts_conns st) (ts_used st) [] (l_done ls) Hn) as [d' [I1 [I2 [I3 I4]]]].
+  cbn [app] in I1, I3. exists (mkL (sids (fa_keep (flush_conns f (ts_conns st) (ts_used st)))) d'). split.
+  - destruct ls as [o d]. cbn [l_open l_done] in *. subst o. exact I1.
+  - unfold linv. cbn [ts_conns ts_nstreams l_open l_done]. split; [reflexivity|]. split; [exact I3|].
+    intros s [Hin|Hin].
+    + apply Hb. left. rewrite Ho. apply I4. exact Hin.
+    + destruct (I2 s Hin) as [H|H]; apply Hb; [right; exact H|left; rewrite Ho; exact H].
+Qed.
+
+Lemma flush_conn_sid : forall t ca c u, tc_sid (tr_c (fst (flush_conn t ca c u))) = tc_sid c.
+Proof.
+  intros t ca c u. unfold flush_conn.
+  assert (S : forall fuel r, tc_sid (tr_c (flush_loop fuel t r)) = tc_sid (tr_c r)).
+  { induction fuel as [|f IH]; intros r; cbn [flush_loop]; [reflexivity|].
+    destruct (tr_closed r); [reflexivity|]. destruct (tc_queue (tr_c r)) eqn:E; [reflexivity|].
+    destruct (tp_seen t0 <? t); [|reflexivity]. rewrite IH.
+    unfold skip_flush. rewrite E. unfold send_to_connection, add_contiguous, add_next. cbn [w_c]. rewrite E.
+    destruct (pop_page (tc_next (tr_c r)) t0). cbn [w_c w_ret set_queue tc_queue tc_next].
+    match goal with |- context [contiguous ?q ?n] => destruct (contiguous q n) as [[? ?] ?] end. cbn [w_c w_ret].
+    match goal with |- context [contiguous ?q ?n] => destruct (contiguous q n) as [[? ?] ?] end. cbn [w_c w_ret].
+    match goal with |- context [if ?b then _ else _] => destruct b end; reflexivity. }
+  match goal with |- context [if ?b then _ else _] => destruct b end; cbn [fst]; [unfold close_connection; cbn [tr_c]|]; rewrite S; reflexivity.
+Qed.
+
+Lemma flush_all_conn_sid : forall c u, tc_sid (tr_c (flush_all_conn c u)) = tc_sid c.
+Proof.
+  intros c u. assert (Hc : forall c0, tc_sid c0 = tc_sid c0) by reflexivity.
+  unfold flush_all_conn.
+  assert (S : forall fuel r, tc_sid (tr_c (flush_all_loop fuel r)) = tc_sid (tr_c r)).
+  { induction fuel as [|f IH]; intros r; cbn [flush_all_loop]; [reflexivity|].
+    destruct (tr_closed r); [reflexivity|]. rewrite IH.
+    unfold skip_flush. destruct (tc_queue (tr_c r)) eqn:E; [reflexivity|].
+    unfold send_to_connection, add_contiguous, add_next. cbn [w_c]. rewrite E.
+    destruct (pop_page (tc_next (tr_c r)) t). cbn [w_c w_ret set_queue tc_queue tc_next].
+    match goal with |- context [contiguous ?q ?n] => destruct (contiguous q n) as [[? ?] ?] end. cbn [w_c w_ret].
+    match goal with |- context [contiguous ?q ?n] => destruct (contiguous q n) as [[? ?] ?] end. cbn [w_c w_ret].
+    match goal with |- context [if ?b then _ else _] => destruct b end; reflexivity. }
+  rewrite S. reflexivity.
+Qed.
+
+Lemma tstep_log : forall v st ls o, tinv st -> linv st ls ->
+  exists ls', lrun ls (to_ev (snd (tstep v st o))) = Some ls' /\ linv (fst (tstep v st o)) ls'.
+Proof.
+  intros v st ls o Hi L. unfold tstep. destruct (ts_dead st); [exists ls; split; [reflexivity|exact L]|].
+  destruct o.
+  - apply tassemble_log; assumption.
+  - unfold tflush. cbn [fst snd to_ev]. apply flush_log; [apply flush_conn_sid|exact L].
+  - unfold tflush_all. cbn [fst snd to_ev]. apply flush_log; [intros; apply flush_all_conn_sid|exact L].
+Qed.
+
+Lemma trun_state_log : forall v ops st ls, tinv st -> linv st ls ->
+  exists ls', lrun ls (snd (trun_state v st ops)) = Some ls' /\ linv (fst (trun_state v st ops)) ls'.
+Proof.
+  intros v. induction ops as [|o ops IH]; intros st ls Hi L; cbn [trun_state].
+  - exists ls. split; [reflexivity|exact L].
+  - destruct (tstep_log v st ls o Hi L) as [ls1 [R1 L1]]. pose proof (tstep_inv v st o Hi) as Hi1.
+    destruct (tstep v st o) as [st' ou]. cbn [fst snd] in *.
+    destruct (IH st' ls1 Hi1 L1) as [ls2 [R2 L2]].
+    destruct (trun_state v st' ops) as [st2 ev]. cbn [fst snd] in *.
+    exists ls2. split; [|exact L2]. rewrite lrun_app, R1. exact R2.
+Qed.
+
+Lemma linv_init : forall mp mt, linv (tinit mp mt) l0.
+Proof. intros. unfold linv, tinit, l0, bounded. cbn. split; [reflexivity|]. split; [constructor|]. intros s [[]|[]]. Qed.
+
+(* C11_once: the whole callback log of any history is accepted by the lifecycle automaton,
+   and the streams still open at the end are exactly those of the live connections *)
+Lemma t_once : forall v mp mt ops,
+  exists ls, lrun l0 (snd (trun_state v (tinit mp mt) ops)) = Some ls /\
+             l_open ls = map tc_sid (ts_conns (fst (trun_state v (tinit mp mt) ops))).
+Proof.
+  intros. destruct (trun_state_log v ops _ _ (tinit_inv mp mt) (linv_init mp mt)) as [ls [R [Ho _]]].
+  exists ls. split; [exact R|exact Ho].
+Qed.
